@@ -61,11 +61,18 @@ PcoComplaints(e) ==
    ELSE (IF e.bytes = want THEN {} ELSE {"PCO octets differ from TS 24.008 10.5.6.3"})
         \cup (IF ~e.err /\ parsed.ok /\ e.backIds = parsed.ids /\ e.backContents = parsed.contents /\ parsed.ids = e.ids /\ parsed.contents = e.contents THEN {}
               ELSE {"parsing the marshalled options does not return the original container list"})
+\* the helper constructors: DNS server IPv4 / IPv6 address request (000D, 0003), IP address allocation via NAS signalling (000A), DNS
+\* server IPv4 / IPv6 address (000D with 4, 0003 with 16 octets), IPv4 link MTU (0010, two octets) - TS 24.008 table 10.5.154
+PcoHelperComplaints(e) ==
+   LET want == <<128>> \o PcoMarshal(<<13, 3, 10, 13, 3, 16>>, << <<>>, <<>>, <<>>, e.ip4, e.ip6, <<e.mtu \div 256, e.mtu % 256>> >>, 1) IN
+   IF e.panic \/ e.err THEN {"a PCO helper constructor failed"}
+   ELSE IF e.bytes = want THEN {} ELSE {"the option list built by the helper constructors is " \o ToString(e.bytes) \o ", TS 24.008 10.5.6.3 gives " \o ToString(want)}
 DnnComplaints(e) ==
    IF e.panic THEN {"panic"}
    ELSE (IF e.bytes = <<Len(e.in)>> \o e.in THEN {} ELSE {"DNN is not length | value"}) \cup (IF e.back = e.in THEN {} ELSE {"DNN round trip differs"})
 
 Complaints(e) == CASE e.ev = "PlmnRow" -> RowComplaints(e)
+                   [] e.ev = "PcoHelpers" -> PcoHelperComplaints(e)
                    [] e.ev = "WirePlmn" -> WireComplaints(e)
                    [] e.ev = "Snssai" -> SnssaiComplaints(e)
                    [] e.ev = "AmfIdRow" -> AmfIdComplaints(e)
